@@ -134,6 +134,9 @@ func (p *Packet) UnmarshalBinary(v []byte) error {
 	if h.Length > MaxBodyLength {
 		return fmt.Errorf("indicated size is too large to unmarshal; max allowed [%v] reported [%v]", MaxBodyLength, h.Length)
 	}
+	if len(v)-MaxHeaderLength < int(h.Length) {
+		return fmt.Errorf("indicated size [%v] is larger than the [%v] body bytes provided", h.Length, len(v)-MaxHeaderLength)
+	}
 	p.Body = v[MaxHeaderLength : MaxHeaderLength+int(h.Length)]
 	return nil
 }
